@@ -33,7 +33,7 @@ MANIFEST = {
 }
 
 C18_OPS = {"CountExact", "Bounded", "NoPanic", "LegalDisappear", "OnlyAddsKey", "UnrelatedUntouched",
-           "NoCloserVictim", "ReportedVictimGone", "EvictOnlyWhenFull", "ExpireExact", "DeleteExact",
+           "NoCloserVictim", "VictimUnprotected", "ReportedVictimGone", "EvictOnlyWhenFull", "ExpireExact", "DeleteExact",
            "PutStores", "GetFaithful"}
 C19_OPS = {"ForEachSorted", "ClosestIsMin", "CloserExact", "MatchingExact",
            "AgreesWithBytesCompare", "Antisymmetric", "ZeroIffEqual", "LtGtConsistent", "DistanceIsXor",
